@@ -4,9 +4,10 @@
 -/
 import WS.Lemmas.Total
 import WS.Lemmas.Sizes
+import WS.Lemmas.LoopTotal
 import WS.Lemmas.Http
 namespace WS.Props.C17
-open WS WS.Model WS.Lemmas.RecvStrict WS.Lemmas.Parser WS.Lemmas.Total WS.Lemmas.Sizes
+open WS WS.Model WS.Lemmas.RecvStrict WS.Lemmas.Parser WS.Lemmas.Total WS.Lemmas.Sizes WS.Lemmas.LoopTotal
 
 theorem cap_value : Gen.recvCap = 16384 := by decide
 
@@ -17,6 +18,20 @@ theorem cap_value : Gen.recvCap = 16384 := by decide
 theorem C17_frame_no_internal (c : Conn) (hl : Live c) (hch : Chunks c.sock.inp) (hclr : Cleared c)
     (e : Exn) (he : c.recvFrame.1 = .error e) : e = .proto ∨ e = .closed ∨ e = .timeout :=
   recvFrame_benign c hl hch hclr e he
+
+/-- **C17_message_no_internal** — message level: whatever bytes the server sends (any byte string, any
+    chunking) followed by end of stream or silence, and however the transport treats the automatic replies,
+    `recv_data_frame` returns a value or raises PROTO, PAYLOAD, CLOSED, TIMEOUT or the transport's own error;
+    never an internal error; the fuel the model passes is always enough, i.e. the loop never spins: every turn
+    consumes at least two bytes of input or ends the call. -/
+theorem C17_message_no_internal (c : Conn) (cf : Bool) (hr : RxReady c) (e : Exn)
+    (he : (c.recvDataFrame cf).1 = .error e) :
+    e = .proto ∨ e = .payload ∨ e = .closed ∨ e = .timeout ∨ e = .transport := by
+  apply recvDataFrameLoop_benign _ cf c hr _ e he
+  have := bytesOf_le_size c.sock.inp
+  simp only [pending, List.length_append]
+  unfold Sock.size
+  omega
 
 /-- **C17_request_sizes** — for EVERY state, EVERY transport script (chunks, timeouts, waits, eof, reset)
     and EVERY length the peer declares (up to 2^64-1), each size `recv_frame` passes to the transport's
